@@ -289,13 +289,12 @@ func (p *polling) send(packets []*packet.Packet) {
 	p.mu.Lock()
 	defer p.mu.Unlock()
 
-	if shouldClose := p.shouldClose.Load(); shouldClose != nil {
+	if shouldClose := p.shouldClose.Swap(nil); shouldClose != nil {
 		polling_log.Debug("appending close packet to payload")
 		packets = append(packets, &packet.Packet{
 			Type: packet.CLOSE,
 		})
 		(*shouldClose)()
-		p.shouldClose.Store(nil)
 	}
 
 	option := &packet.Options{Compress: false}
@@ -487,6 +486,15 @@ func (p *polling) DoClose(fn types.Callable) {
 				},
 			})
 		}
+	}
+}
+
+// Flags the transport as discarded; an orderly close that is waiting for the
+// next poll is completed now.
+func (p *polling) Discard() {
+	p.Transport.Discard()
+	if shouldClose := p.shouldClose.Swap(nil); shouldClose != nil {
+		(*shouldClose)()
 	}
 }
 
